@@ -14,7 +14,7 @@ from vlib.run import Result
 
 LEVEL = "exploration"
 RULE = (
-    "a case = protocol version 4..14 x generated network/node information (PAN, extended PAN, channel 11..26, channel mask, "
+    "a case = protocol version 4..14 (and NCPs reporting 15 / 16, served with the v14 tables) x generated network/node information (PAN, extended PAN, channel 11..26, channel mask, "
     "update id, network key + sequence + frame counter, trust-centre link key well-known or not, hashed link key supplied or "
     "absent, 0..N link keys with distinct partners, 0..M children with or without known NWK address, trust-centre address "
     "known or unknown, node IEEE equal to / different from / unknown vs the NCP's) x NCP capabilities (NV3 EUI64 token, "
@@ -264,5 +264,5 @@ def _worker(ctx, job):
 def run(ctx):
     quick = ctx.tier == "quick"
     n = 45 if quick else 2500
-    jobs = [(n, (v,)) for v in range(4, 15)] + [(n, tuple(range(4, 15)))] * 5
+    jobs = [(n, (v,)) for v in range(4, 16)] + [(n, tuple(range(4, 17)))] * 4
     ctx.parallel(_worker, jobs)
